@@ -310,6 +310,9 @@ func (u *Unit) emitExpect(st *State, group, kind, detail string, pos token.Pos, 
 	if u.nameCount[name] > 1 {
 		name = fmt.Sprintf("%s~%d", name, u.nameCount[name])
 	}
+	if u.litGroup && group != "canary" {
+		group = "lit:" + group
+	}
 	ob := &Obligation{Name: name, Group: group, Func: u.pkgName + "." + u.key, Kind: kind, Pos: p, Detail: detail, Expect: expect, Precise: true}
 	var b strings.Builder
 	fmt.Fprintf(&b, "; obligation %s\n; %s:%d  %s\n", name, shortPath(p.Filename), p.Line, oneLine(detail))
